@@ -6,13 +6,16 @@ pub mod c02;
 pub mod c03;
 pub mod c04;
 pub mod c05;
+pub mod c06;
 pub mod c10;
 pub mod c11;
 pub mod c12;
+pub mod c15;
+pub mod c16;
 pub mod c19;
 pub mod common;
 
-pub const ALL: &[&str] = &["C01", "C02", "C03", "C04", "C05", "C10", "C11", "C12", "C19"];
+pub const ALL: &[&str] = &["C01", "C02", "C03", "C04", "C05", "C06", "C10", "C11", "C12", "C15", "C16", "C19"];
 
 pub fn run(prop: &str, ctx: &mut Ctx) -> bool {
     match prop {
@@ -21,9 +24,12 @@ pub fn run(prop: &str, ctx: &mut Ctx) -> bool {
         "C03" => c03::run(ctx),
         "C04" => c04::run(ctx),
         "C05" => c05::run(ctx),
+        "C06" => c06::run(ctx),
         "C10" => c10::run(ctx),
         "C11" => c11::run(ctx),
         "C12" => c12::run(ctx),
+        "C15" => c15::run(ctx),
+        "C16" => c16::run(ctx),
         "C19" => c19::run(ctx),
         _ => return false,
     }
@@ -37,9 +43,12 @@ pub fn replay(prop: &str, kind: &str, case: &J, rec: &mut Rec) -> Verdict {
         "C03" => c03::replay(kind, case, rec),
         "C04" => c04::replay(kind, case, rec),
         "C05" => c05::replay(kind, case, rec),
+        "C06" => c06::replay(kind, case, rec),
         "C10" => c10::replay(kind, case, rec),
         "C11" => c11::replay(kind, case, rec),
         "C12" => c12::replay(kind, case, rec),
+        "C15" => c15::replay(kind, case, rec),
+        "C16" => c16::replay(kind, case, rec),
         "C19" => c19::replay(kind, case, rec),
         _ => Verdict::fail("infra:unknown-property", prop),
     }
